@@ -12,7 +12,7 @@ EXTENDS Nodes, TraceCommon
 VARIABLE l
 tvars == <<vars, l>>
 
-NoSrc == [batch |-> FALSE, dims |-> <<>>, byName |-> FALSE]
+NoSrc == [batch |-> FALSE, dims |-> <<>>, byName |-> FALSE, trunc |-> 0, tzr |-> 0]
 TrInit ==
     /\ l = 1 /\ HWInit /\ TLCSet(2, 0)
     /\ order = <<>> /\ src = NoSrc /\ nodes = <<>> /\ nst = <<>> /\ acc = <<>> /\ amb = <<>>
